@@ -88,7 +88,64 @@ func runPipelined(c hCase, ls hRun) ([]byte, string) {
 		}
 		return st
 	}
+	// hold: at one command boundary of the history the client sends what came
+	// before, then only the first octets of the next command line, and looks:
+	// every complete command must have been answered by then - a reply never
+	// waits for input the server has no use for (RFC 5321 4.1.1: commands are
+	// answered as they are received). Chosen by the cut seed; not under TLS
+	// handshakes or barrier groups, whose steps have an order of their own.
+	hold := -1
+	if n := len(ls.steps); n >= 2 && c.CutSeed%3 == 0 && c.ShutdownAt == 0 {
+		b := 1 + (c.CutSeed/3)%(n-1)
+		ok := !ls.steps[b].Barrier && !ls.steps[b].TLS && len(ls.steps[b].Sent) > 0 && len(ls.steps[b].Sent[0]) >= 2
+		for _, s := range ls.steps[:b] {
+			if s.Barrier || s.TLS || s.Closed {
+				ok = false
+			}
+		}
+		if ok {
+			hold = b
+		}
+	}
+	holdFail := ""
 	for si, s := range ls.steps {
+		if si == hold {
+			flush()
+			if st := settle(); st != harness.QIdle {
+				endBystander(bw)
+				w.Finish()
+				return nil, "pipelined run: server not idle at the held boundary: " + st
+			}
+			first := s.Sent[0]
+			// strictly inside the command line (a group may carry a BDAT
+			// payload behind its line)
+			k := len(first) / 2
+			if nl := bytes.IndexByte(first, '\n'); nl >= 0 && k > nl/2 {
+				k = nl / 2
+			}
+			if k < 1 {
+				k = 1
+			}
+			part := first[:k]
+			w.Send(part)
+			st := settle()
+			w.Recv()
+			want := append([]byte(nil), ls.banner...)
+			for _, p := range ls.steps[:si] {
+				want = append(want, p.Raw...)
+			}
+			if (st == harness.QIdle || st == harness.QClosed) && !bytes.Equal(w.Out, want) && holdFail == "" {
+				holdFail = fmt.Sprintf("after %d complete commands and the first %d octets of the next line (%s) the server has written %s; the complete commands account for %s", si, len(part), q(part), q(w.Out), q(want))
+			}
+			// the rest of the line joins the following batch
+			batch = append(batch, first[len(part):]...)
+			lineEnds = append(lineEnds, len(batch))
+			for _, g := range s.Sent[1:] {
+				batch = append(batch, g...)
+				lineEnds = append(lineEnds, len(batch))
+			}
+			continue
+		}
 		if c.ShutdownAt == si+1 {
 			// the graceful Shutdown begins at the same place in the history:
 			// everything before it has been dealt with
@@ -151,6 +208,13 @@ func runPipelined(c hCase, ls hRun) ([]byte, string) {
 			}
 		}
 	}
+	if n := len(ls.steps); n > 0 && ls.steps[n-1].Closed && c.CutSeed%2 == 0 && len(batch) > 0 {
+		// the server ends the connection at the last command: whatever the
+		// client had already sent behind it changes nothing (and the replies
+		// up to the closing one are on the wire all the same)
+		batch = append(batch, "NOOP\r\nRSET\r\nNOO"...)
+		lineEnds = append(lineEnds, len(batch))
+	}
 	last = true
 	flush()
 	// parked deliveries are released whenever the command loop waits for them
@@ -171,6 +235,9 @@ func runPipelined(c hCase, ls hRun) ([]byte, string) {
 	}
 	if p := r.Log.Panicked(); p != "" {
 		return w.Out, "PANIC:" + p
+	}
+	if holdFail != "" {
+		return w.Out, "HOLD:" + holdFail
 	}
 	return w.Out, ""
 }
@@ -236,6 +303,9 @@ func c04Run(c hCase) Verdict {
 	}
 	if strings.HasPrefix(incon, "PANIC:") {
 		return failf("panic", "pipelined run: server logged a panic: %s", incon[6:])
+	}
+	if strings.HasPrefix(incon, "HOLD:") {
+		return failf("reply-withheld", "%s\nhistory: %v", incon[5:], cmdNames(c.Cmds))
 	}
 	if incon != "" {
 		return Verdict{Inconclusive: incon}
